@@ -383,7 +383,7 @@ func (ps *pathState) concretize(t *sym.Term, what string) uint64 {
 		}
 		vals = append(vals, v)
 		if len(vals) > cap {
-			ps.fail("budget", "concretisation cap %d exceeded for %s", cap, what)
+			ps.fail("budget", "concretisation cap %d exceeded for %s\n%s", cap, what, ps.i.stackString())
 		}
 		excl = append(excl, ps.cx.Not(ps.cx.Eq(t, ps.cx.Const(t.W, v))))
 	}
